@@ -51,7 +51,7 @@ class Explainer:
 
     def explained(self, ci, ei, n, t, e, x, y):
         """x = implementation field, y = specification field (already different)"""
-        if "namespace::" in e or "ns:" in x or "ns:" in y:
+        if classify_ns(e, x, y):
             if "namespace-nodes" in self.findings:
                 self.chk.known_finding("namespace-nodes " + self.findings["namespace-nodes"]["text"])
                 return True
@@ -68,9 +68,28 @@ class Explainer:
         return False
 
 
+def _strip_ns(field):
+    """a node-set field without its namespace nodes (None for a field that is not a node-set)"""
+    if not field.startswith("N:["):
+        return None
+    body = field[3:].rstrip("]")
+    items = [i for i in body.split(";") if i]
+    return [i.split("~")[0] for i in items if not i.startswith("ns:")]
+
+
 def classify_ns(e_text, x, y):
-    """known finding `namespace-nodes`: results that differ only in namespace nodes"""
-    return "namespace::" in e_text or "ns:" in x or "ns:" in y
+    """known finding `namespace-nodes` (namespace nodes are shared objects with key 0: node-sets that CONTAIN namespace nodes
+    come out with some of them merged or out of place).  It explains a difference only if the two answers agree once the
+    namespace nodes themselves are left out - the elements and attributes reached THROUGH the namespace axis
+    (`.../namespace::p/..`) and the other members of a mixed node-set must still be exactly right; for a scalar computed
+    through the axis nothing finer can be said."""
+    touches = "namespace::" in e_text or "ns:" in x or "ns:" in y
+    if not touches:
+        return False
+    sx, sy = _strip_ns(x), _strip_ns(y)
+    if sx is not None and sy is not None:
+        return sx == sy
+    return True
 
 
 # ---------------------------------------------------------------------------------------------------------
@@ -170,7 +189,7 @@ def run_c05(chk):
     pr = X.standard_proof(chk, "C05", thorough)
     ndocs, nexpr = (600, 12) if thorough else (120, 10)
     cases = XP.gen_cases(rng, ndocs, nexpr)
-    qs = [(t, XP.BINDINGS, [_spell(rng, e) for e in es]) for d, t, es in cases]
+    qs = [(t, rng.choice(XP.BINDING_VARIANTS), [_spell(rng, e) for e in es]) for d, t, es in cases]
     # attributes supplied by ATTLIST defaults: a separate small stream with direct queries (recorded finding
     # default-attr-order is identified there by the defaulted attributes' names)
     DEFQ = ["//@dflt", "string(//@dflt)", "string(/*/@n)", "count(//@*)", "//@*", "//*[@dflt='dv']", "name(//@dflt)", "/*/@n"]
@@ -449,7 +468,37 @@ def run_c07(chk):
                 mfail.append((t, "(%s)|(%s)" % (e, e), "A|A differs from A", fa[j + half] + " / " + s_))
             elif s_ != y:
                 tdis.append((t, e, s_, y))
-    chk.cov["structured_stream"] = "%d expressions x %d documents" % (2 * len(cex), len(CONSTRUCT_DOCS))
+    # node-sets of DIFFERENT node kinds united: commutative, and nothing is lost - count(A|B) = count(A) + count(B) when the
+    # kinds differ (an element and its own namespace or attribute nodes are distinct nodes)
+    KSETS = [("//*", "e"), ("//@*", "a"), ("//namespace::*", "n"), ("//text()", "t"), ("//comment()", "c"), ("/*", "e"),
+             ("//b/namespace::*", "n"), ("//a/@*", "a"), ("/*/namespace::xml", "n"), ("//*[last()]", "e"), ("//a/namespace::*", "n")]
+    KDOCS = CONSTRUCT_DOCS + ["<a xmlns:p='urn:p' k='v'><b/><p:c x='1'><d/>t</p:c><!--c--><b p:k='2' xmlns:q='urn:q'/></a>"]
+    kq, kmeta = [], []
+    for kd in KDOCS:
+        es, m = [], []
+        for (A, ka) in KSETS:
+            for (Bx, kb) in KSETS:
+                if A < Bx:
+                    es += ["(%s)|(%s)" % (A, Bx), "(%s)|(%s)" % (Bx, A), "count((%s)|(%s))" % (A, Bx), "count(%s)" % A, "count(%s)" % Bx]
+                    m.append((A, Bx, ka != kb))
+        kq.append((kd, XP.BINDINGS, es))
+        kmeta.append(m)
+    kimpl = lib.run_lines(lib.build_harness(), [lib.req("qfresh", t, b, *es) for t, b, es in kq], timeout=900, per_line_resume=True)
+    import struct as _st
+    for (t, b, es), m, a in zip(kq, kmeta, kimpl):
+        fa, raw, _ = _fields(a, len(es))
+        for gi, (A, Bx, disjoint) in enumerate(m):
+            ab, ba, cab, ca, cb = fa[gi * 5:(gi + 1) * 5]
+            chk.count([t, A, Bx], nontrivial=True)
+            if ab != ba:
+                mfail.append((t, "(%s)|(%s) vs (%s)|(%s)" % (A, Bx, Bx, A), "union is not commutative", ab + " / " + ba))
+            elif disjoint and all(f.startswith("n:") for f in (cab, ca, cb)):
+                v = [_st.unpack(">d", int(f[2:], 16).to_bytes(8, "big"))[0] for f in (cab, ca, cb)]
+                if v[0] != v[1] + v[2]:
+                    mfail.append((t, "count((%s)|(%s))" % (A, Bx), "the union of node-sets of different node kinds loses nodes: %g != %g + %g"
+                                  % (v[0], v[1], v[2]), cab))
+    chk.cov["structured_stream"] = "%d expressions x %d documents; %d unions of node-sets of different kinds" % (
+        2 * len(cex), len(CONSTRUCT_DOCS), sum(len(m) for m in kmeta))
 
     def bits(field):
         return int(field[2:], 16) if field.startswith("n:") else None
@@ -553,7 +602,7 @@ def run_c08(chk):
             for kw in SP:
                 es.append(_spell(rng, ast, **kw))
         es += [f for f, _ in fixed]
-        qs.append((t, XP.BINDINGS, es))
+        qs.append((t, rng.choice(XP.BINDING_VARIANTS), es))
         meta.append(asts)
     impl, model = XP.run_queries("qfresh", qs, quirks="r")
     findings = {f["id"]: f for f in lib.load_findings("C08") if f["kind"] == "known"}
@@ -574,7 +623,7 @@ def run_c08(chk):
                 if classify_ns(ge[0], g[0], g[j]) and _known(findings, chk, "namespace-nodes"):
                     continue
                 mfail.append((t, "%s   vs   %s" % (ge[0], ge[j]), "equivalent spellings give different results", g[0] + "  /  " + g[j]))
-            elif g[0] != gm[0] and not (classify_ns(ge[0], g[0], gm[0]) and "namespace-nodes" in findings):
+            elif g[0] != gm[0] and not classify_ns(ge[0], g[0], gm[0]):
                 tdis.append((t, ge[0], g[0], gm[0]))
         base = len(asts) * len(SP)
         for (f, kind), x, y in zip(fixed, fa[base:], fm[base:]):
@@ -647,6 +696,12 @@ def run_c10(chk):
     impl_rd = lib.run_lines(lib.build_harness(), [lib.req("qfresh", t, b, *es) for t, b, es in qs_rd], timeout=900, per_line_resume=True)
     impl_re = lib.run_lines(lib.build_harness(), [lib.req("qfresh", t, b, *es) for t, b, es in qs_re], timeout=900, per_line_resume=True)
     impl_rb = lib.run_lines(lib.build_harness(), [lib.req("qfresh", t, b, *es) for t, b, es in qs_rb], timeout=900, per_line_resume=True)
+    # caller default namespace (qualifies unprefixed ELEMENT name tests only), abbreviated and unabbreviated step spellings
+    DEF_BATTERY = ["//a", "//b", "//child::a", "//@id", "//attribute::id", "//@x", "//attribute::x", "//*[@x]", "//*[attribute::x]",
+                   "//a/@*", "//a/attribute::*", "//namespace::p", "//a/namespace::p", "count(//a | //@x)", "//a[@id]/attribute::id",
+                   "//p:a/child::b", "//self::a", "//b/parent::a", "//descendant-or-self::a/attribute::n", "name(//attribute::id)"]
+    qs_df = [(t, rng.choice(["=urn:u1;p=urn:u1;q=urn:u2", "=urn:u2;p=urn:u1;q=urn:u2"]), DEF_BATTERY) for t, _, _ in qs]
+    impl_df, spec_df = XP.run_queries("qfresh", qs_df, quirks="")
     spec = lib.run_lines(lib.model_driver(), [lib.req("queryq", "", t, b, *es) for t, b, es in qs], timeout=900)
     findings = {f["id"]: f for f in lib.load_findings("C10") if f["kind"] == "known"}
     mfail, tdis = [], []
@@ -681,6 +736,16 @@ def run_c10(chk):
                 if frb[i] != x:
                     mfail.append((t, e, "result depends on how the caller's bindings were reached (a prefix bound twice: the later "
                                   "binding must take the place of the earlier one)", x + "  /  " + frb[i]))
+    for (t, b, es), a, sp in zip(qs_df, impl_df, spec_df):
+        fa, _, _ = _fields(a, len(es))
+        fs, _, _ = _fields(sp, len(es))
+        for e, x, y in zip(es, fa, fs):
+            chk.count([t, b, e], nontrivial=not x.startswith("err") and x != "N:[]")
+            if x != y:
+                if classify_ns(e, x, y) and _known(findings, chk, "namespace-nodes"):
+                    continue
+                mfail.append((t, e + "   [caller bindings " + b + "]", "differs from Namespaces in XML / XPath 1.0 with a caller default "
+                              "namespace (it applies to unprefixed element name tests only)", x + " expected " + y))
     chk.cov["document_features"] = dict(sorted(dfeats.items()))
     chk.cov["disagreements_checked"] = len(tdis)
     chk.cov["rule"] = ("%d generated documents with random declaration layouts (shadowing, re-declaration, default namespace, xmlns=\"\", "
@@ -728,7 +793,11 @@ def run_c19(chk):
             else:
                 seq.append(_spell(rng, eg.expr()))
         seq.append(rng.choice(PROBES))
-        qs.append((t, XP.BINDINGS, seq))
+        if rng.random() < 0.4:
+            # the same unprefixed name as an element test and as an attribute test on one context, with a caller default namespace
+            seq = [rng.choice(["count(//@id)", "count(//id)", "//a[@a]", "count(//attribute::x | //x)", "count(//a)", "count(//@a)"])
+                   for _ in range(3)] + seq
+        qs.append((t, rng.choice(XP.BINDING_VARIANTS), seq))
     h = lib.build_harness()
     one = lib.run_lines(h, [lib.req("query", t, b, *es) for t, b, es in qs], timeout=900, per_line_resume=True)
     fresh = lib.run_lines(h, [lib.req("qfresh", t, b, *es) for t, b, es in qs], timeout=900, per_line_resume=True)
